@@ -18,6 +18,9 @@ Plus layout "mid" (slot 0, goto/16 over the payload tables, slot 1 ...) and the 
 (analyse, ONE edit of the instruction list -- prepend 1 or 2 nops, nop behind the final return, list replaced by itself
 -- through EncodedMethod.set_instructions(), NEW MethodAnalysis judged against the reference decoded from the edited
 bytes; keys end in ":after:set_instructions").
+No-op history (plans again-*): the SAME parsed code analysed again without any edit -- a stand-alone MethodAnalysis(vm, em)
+and a second Analysis(vm) over the same DEX object -- judged exactly like the first analysis (keys end in
+":second-analysis"); every shipped method is likewise analysed twice.
 Plus every method of the shipped DEX files (quick: classes.dex).
 Oracle (ref/cfg.judge_c40 and judge_xrefs below), S = offsets EncodedMethod.get_instructions_idx() yields:
   every basic-block start is in S, every block end is in S or the end of the code;
@@ -84,6 +87,9 @@ def plans(ctx):
     for n in (1, 2):
         p.append({"id": "hist-n%d" % n, "n": n, "kinds": "GIKSA", "layouts": ("aligned", "first", "mid"),
                   "history": M.EDITS})
+    # no-op history: the same parsed code analysed a second / third time (keys end in :second-analysis)
+    for n in (1, 2):
+        p.append({"id": "again-n%d" % n, "n": n, "kinds": "VGIKSA", "layouts": M.LAYOUTS_MID, "history": ("reanalyse",)})
     # 31t offsets at which NO payload starts (inside an instruction / a payload, at an ordinary instruction, outside the code)
     for n in (1, 2):
         p.append({"id": "bogus-n%d" % n, "n": n, "kinds": "VGKSA", "bogus": M.BOGUS, "require_bogus": True,
